@@ -255,6 +255,21 @@ def main(chk):
                         ev["id"] = len(events) + 1
                         events.append(ev)
                         chk.count("degenerate_pattern_runs")
+    # repeat counts beyond every default (32) and beyond 64, over bodies of one, two and three
+    # characters and of varying width
+    AB = {"r": "group", "kind": "cap", "body": {"r": "seq", "parts": [La, {"r": "lit", "c": 98}]}}
+    DD = {"r": "group", "kind": "noncap", "body": {"r": "seq", "parts": [ATOMS[4], ATOMS[4], {"r": "lit", "c": 45}]}}
+    ABC = {"r": "group", "kind": "noncap", "body": {"r": "alt", "alts": [La, {"r": "seq", "parts": [{"r": "lit", "c": 98}, {"r": "lit", "c": 99}]}]}}
+    for body in (La, AB, DD, ABC):
+        for lo, hi in ((65, 65), (70, INF), (64, 66), (33, 33), (129, 130)):
+            rx = {"r": "rep", "body": body, "lo": lo, "hi": hi, "lazy": False}
+            for tape in (["lo"], ["hi"], ["lo", "hi"]):
+                for via_fake in (False, True):
+                    ev = run_one(rx, tape, 32, via_fake)
+                    if ev is not None:
+                        ev["id"] = len(events) + 1
+                        events.append(ev)
+                        chk.count("long_repeat_runs")
     # code -> spec beyond the machine's depth: random ASTs from the same constructors (rich
     # alphabet, up to 6 steps), every boundary tape; the verdicts are Trace_C09's as for the rest
     nrand = 1500 if quick else 12000
